@@ -7,7 +7,7 @@ Case lines (harness/h_C10.cpp):
 The sentences are generated constructively from (value, spelling) choices, so the
 expected values (the denotation) are known without looking at any recogniser.
 """
-import struct
+import struct, re
 from props import C10 as P10
 
 HARNESS = ["h_C10.cpp"]
@@ -217,11 +217,115 @@ def adjacent_ranges(rng):
     s2 = ["R:%d:1" % n2, "%s:%d" % (k, d2), "%s:%d" % (k, b2)]
     return t1 + sep(rng) + t2, s1 + s2
 
+def _lit(k, v):
+    return "'%c'" % v if k == "c" else "%d%s" % (v, "h" if k == "h" else "")
+
+def rich_array(rng, depth=0):
+    """an array as the manual's grammar allows it: plain elements of one type; repetitions and
+    ranges (finite, or open-ended as the last element) of possibly ANOTHER type; nested arrays,
+    repetitions and an open range of arrays.  Returns (text, slots).  `prev` tracks the value the
+    scanner takes for the left neighbour (type letter, integer value or None)."""
+    if depth == 0 and rng.random() < 0.35:
+        # an array of arrays
+        parts, slots = [], []
+        n = rng.randint(1, 3)
+        for j in range(n):
+            it, isl = rich_array(rng, 1)
+            q = rng.random()
+            if q < 0.3:
+                m = rng.randint(2, 6)
+                parts.append("%dx%s" % (m, it)); slots += ["R:%d:0" % m] + isl
+            elif q < 0.45 and j == 0 and n == 1:
+                parts.append(it + sep(rng, False) + "..."); slots += ["R:0:0"] + isl
+            else:
+                parts.append(it); slots += isl
+        if rng.random() < 0.3 and "..." not in "".join(parts):
+            # ends in >= 5 equal arrays (printed back as a repetition)
+            it, isl = rich_array(rng, 1)
+            m = rng.randint(5, 6)
+            parts += [it] * m; slots += isl * m
+        text = "[" + rng.choice(["", " "]) + sep(rng, False).join(parts) + rng.choice(["", " "]) + "]"
+        return text, ["a:97:%d" % len(slots)] + slots
+    base = rng.choice("ihcfNs") if depth == 0 else rng.choice("ihc")
+    n = rng.randint(0, 4) if depth == 0 else rng.randint(1, 2)
+    parts, slots = [], []
+    prev = None
+    last_ty = 32
+    def plain():
+        if base in "ihc":
+            v = rng.randint(60, 90) if base == "c" else rng.randint(-30, 30)
+            return _lit(base, v), ["%s:%d" % (base, v)], (base, v)
+        if base == "f":
+            v = rng.choice([0.5, 0.25, 1.5, -2.0])
+            return repr(v), [f32(v)], ("f", None)
+        if base == "N":
+            return "nil", ["N"], ("N", None)
+        b = b"a" + bytes([rng.choice([98, 99])])
+        return '"%s"' % b.decode(), ["s:" + b.hex()], ("s", None)
+    for j in range(n):
+        t, sl, prev = plain()
+        parts.append(t); slots += sl; last_ty = ord(sl[-1][0])
+    if depth == 0 and rng.random() < 0.7:
+        # one or two repetitions / ranges of an integer type (maybe another one than base)
+        for _ in range(rng.choice([1, 1, 2])):
+            k2 = rng.choice("ihc")
+            q = rng.random()
+            if q < 0.3:
+                m = rng.randint(2, 5)
+                v = rng.randint(60, 90) if k2 == "c" else rng.randint(-30, 30)
+                parts.append("%dx%s" % (m, _lit(k2, v))); slots += ["R:%d:0" % m, "%s:%d" % (k2, v)]
+                prev = (k2, v); last_ty = ord(k2)
+                continue
+            b = rng.randint(60, 80) if k2 == "c" else rng.randint(-30, 30)
+            if k2 != base and prev is not None and prev[0] == k2:
+                # a second element of the other type: its reprint can need the explicit form (below)
+                continue
+            if prev is not None and prev[0] == k2 and prev[1] != b:
+                if k2 != base:
+                    # in an array of another type the reprint would need the explicit form
+                    # "a b ... c" whose a is a plain element of the wrong type (notes/C11.md)
+                    continue
+                d = b - prev[1]
+                useless = False
+            else:
+                d = rng.choice([1, -1]) if k2 != "c" else 1
+                useless = True
+            if abs(d) > 12 or (k2 == "c" and not (40 < b + 3 * d < 120)):
+                continue
+            open_end = rng.random() < 0.5
+            if open_end:
+                parts.append(_lit(k2, b) + sep(rng, False) + "...")
+                slots += (["R:0:0"] if useless else ["R:0:1", "%s:%d" % (k2, d)]) + ["%s:%d" % (k2, b)]
+                last_ty = ord(k2)
+                break                                   # an open range ends the array
+            m = rng.randint(2, 4)
+            c = b + (m - 1) * d
+            parts.append(_lit(k2, b) + sep(rng, False) + "..." + sep(rng, False) + _lit(k2, c))
+            slots += ["R:%d:1" % m, "%s:%d" % (k2, d), "%s:%d" % (k2, b)]
+            prev = (k2, c); last_ty = ord(k2)
+    text = "[" + rng.choice(["", " "]) + sep(rng, False).join(parts) + rng.choice(["", " "]) + "]"
+    return text, ["a:%d:%d" % (last_ty, len(slots))] + slots
+
+def rep_then_range(rng):
+    """hand-written 'NxV b ... c' of one type: V is the a of a b ... c"""
+    k = rng.choice("ih")
+    v = rng.randint(-9, 9); m = rng.randint(2, 4)
+    d = rng.choice([2, 3, -2, 1, -1])
+    b = v + d
+    n = rng.randint(2, 4)
+    c = b + (n - 1) * d
+    return "%dx%s%s%s ... %s" % (m, _lit(k, v), sep(rng, False), _lit(k, b), _lit(k, c)), \
+        ["R:%d:0" % m, "%s:%d" % (k, v), "R:%d:1" % n, "%s:%d" % (k, d), "%s:%d" % (k, b)]
+
 def structured(rng):
     """ranges, repetitions, arrays: (text, slots)"""
     q = rng.random()
     if q < 0.15:
         return adjacent_ranges(rng)
+    if q < 0.45:
+        return rich_array(rng)
+    if q < 0.5:
+        return rep_then_range(rng)
     q = rng.random()
     if q < 0.3:
         n = rng.randint(1, 9)
@@ -274,8 +378,15 @@ def gen(rng, tier, dist):
                 # (doc/Guide.adoc): keep such a neighbour away unless it is meant
                 # (after an array the scanner takes the array's last element: finding
                 # range-after-array, generated on purpose now and then)
+                tt0 = re.sub(r"(^|\s)%[^\n]*", " ", text).rstrip(" \n\t")
+                if " ... " in t and not t.startswith("[") and tt0.endswith("]") and tt0[:-1].rstrip(" \n\t").endswith("..."):
+                    # a range after an array that ends in an open range: the checker's search for a
+                    # previous ellipsis ends inside the array (class range-after-array)
+                    text += "nil" + sep(rng)
+                    slots.append("N")
                 if " ... " in t and slots and slots[-1][0] == sl[-1][0]:
-                    after_array = text.rstrip(" \n\t").endswith("]")
+                    tt = text.rstrip(" \n\t")
+                    after_array = tt.endswith("]") and not tt[:-1].rstrip(" \n\t").endswith("...")
                     if not (after_array and not t.split(" ... ")[0].count(" ") and rng.random() < 0.5):
                         text += "nil" + sep(rng)
                         slots.append("N")
@@ -333,9 +444,14 @@ def classify(case, impl, failure):
     """range-after-array: a range "b ... c" whose left neighbour is an array ending in a value of b's type"""
     import re
     text = bytes.fromhex(case.split(" ")[1]).decode("latin-1")
-    text = re.sub(r"%[^\n]*", " ", text)
-    if re.search(r"[0-9a-zA-Z'\"]h?\s*\]\s+[-+0-9'][^\s]*\s+\.\.\.", text):
+    text = re.sub(r"(^|\s)%[^\n]*", " ", text)
+    if re.search(r"[0-9a-zA-Z'\"]h?(\s*\])+\s+[-+0-9'][^\s]*\s+\.\.\.", text):
         return "range-after-array"
+    if failure.startswith("reprint"):
+        d = fields(impl)
+        p2 = bytes.fromhex(d["P2"]) if d.get("P2", "-") != "-" else b""
+        if re.search(rb"[0-9]\n    \[", p2):
+            return "linebreak-in-repeated-array"
     return None
 
 TECHNIQUE = ("Coq proofs over the same recogniser models as C10 (token lemmas shared by checker and scanner, "
